@@ -29,6 +29,7 @@ func init() {
 			"(R4) newIgnorePattern: negated ⇔ leading '!', directoryOnly ⇔ trailing '/', matchLeaf = ¬absolute ∧ ¬containsSlash [truth table], matches() returns false for directory-only patterns on non-directories before any glob match and tries the base name only for leaf patterns; " +
 			"(R5, scan decision table) in scanner.directory the outcome per (status, ignoreMask, continueTraversal) equals the specification table: Ignored∧¬continue → Untracked without descent; Nominal∧mask∧¬continue → Untracked; Ignored∧continue → descend with mask; Unignored → descend without mask; Nominal otherwise → descend with the inherited mask; the recursive scan receives exactly that mask; " +
 			"(R6) VCS ignores: the table contains .git .svn .hg .bzr _darcs, applies to directories only, wins before the wrapped ignorer is asked, and the endpoint wraps the ignorer exactly when the effective VCS mode is Ignore. " +
+			"(R7, ignore cache) scanner.directory looks a verdict up, and records it, under the key {the very path the ignorer is asked about, the same directory flag} — so an accelerated rescan reuses a verdict only for the question it answered; " +
 			"Not decided: doublestar's glob semantics (third party).",
 		Assumptions: []string{"doublestar.Match implements the documented glob language"},
 		Run:         runC14,
@@ -61,6 +62,7 @@ func runC14(c *eng.Ctx) {
 	c14Pattern(c)
 	scanIgnoreTable(c, "R5")
 	c14VCS(c)
+	c14CacheKey(c, "R7")
 }
 
 func c14NewIgnorer(c *eng.Ctx, fn *ssa.Function) {
